@@ -56,6 +56,10 @@ CLAIMED = {
             "In samplers, pruners, search-space, GP and multi-objective code every read of _trial_id/_study_id (35 sites) only flows into the id argument of a storage method (one finding: BaseGASampler.get_parent_population, listed as known); no module-level/unseeded randomness or ambient source is called outside two tabled seeding idioms; every function with an unseeded RandomState fallback is called with an rng derived from self._rng.rng; every sampler builds its RandomState from the seed argument; copy_study forwards every component. Decides these two confinement clauses (necessary for storage-independent reproducibility), not equality of whole runs.",
             "Ids are only reachable through the attributes _trial_id/_study_id; provenance depth 4; set-iteration order effects are not decided (needs types).",
             "DESIGN.md §3 C09"),
+    "C10": ("branch-edge dominance on Trial._suggest's CFG, single-definition value provenance (stored = returned = cached), path-condition agreement of log/exp sites, must-dataflow 'bounded' over the untransform, dispatch exhaustiveness",
+            "A parameter already suggested is reused before any sampling branch; fixed -> single -> relative -> independent; the returned local is what is stored (via to_internal_repr) and cached, with the store dominating cache update and return; suggest_int wraps in int and the front-ends build the distribution from their arguments; relative values are used only if contained; math.log/math.exp are applied under identical predicates and every non-single untransform branch reachable with transform_log=True is clip/min-bounded; isinstance dispatches are exhaustive. Decides the suggest protocol; does NOT decide that each sampler's independent sample lies in [low, high] / on the grid (numerical).",
+            "Trusts to_internal_repr validation; sampler numerics are out of scope.",
+            "DESIGN.md §3 C10"),
 }
 
 NOT_APPLICABLE = {
